@@ -234,7 +234,8 @@ Definition spec_codes_net (h : h3) : list (N * N) :=
   let keys := nodup N.eq_dec (flat_map (fun d => map fst (d_adds d)) (h3_deltas h) ++ flat_map (fun p => map fst (np_final p)) (h3_peers h)) in
   let hh := mk_h2 (h3_deltas h) [] in
   let bad20 := diverging_pairs (h3_writers h) keys (h3_peers h) true in
-  let bad21 := diverging_pairs (h3_writers h) keys (h3_peers h) false in
+  (* a key that is a member at one peer only is reported once, as a membership divergence *)
+  let bad21 := filter (fun k => negb (memN k bad20)) (diverging_pairs (h3_writers h) keys (h3_peers h) false) in
   (match bad20 with [] => [] | _ => [(20, 0)] end) ++
   (match bad21 with [] => [] | _ => [(21, tag_of hh bad21)] end) ++
   (match h3_leak h with [] => [] | _ => [(24, 0)] end).
